@@ -68,6 +68,11 @@ class GeomExpression(tuple):
             return GeomExpression((':', self[1].inverse(), self[2].inverse()))
         elif self[0] == ':':
             return GeomExpression(('*', self[1].inverse(), self[2].inverse()))
+        elif self[0] == '^':
+            # the complement of the complement of a cell is the cell itself
+            return GeomExpression(('@', self[1]))
+        elif self[0] == '@':
+            return GeomExpression(('^', self[1]))
         else:
             return self[0].inverse()
 
